@@ -123,3 +123,15 @@ pub fn lock_busy_seen() -> i64 {
         None => -1,
     }
 }
+
+/// I/O call number `at` (counted from the last reset) takes `ms` milliseconds longer, once (a slow disk)
+pub fn io_delay(at: i64, ms: i64) -> bool {
+    match sym("tcss_io_delay") {
+        Some(p) => {
+            let f: extern "C" fn(libc::c_long, libc::c_long) = unsafe { std::mem::transmute(p) };
+            f(at as libc::c_long, ms as libc::c_long);
+            true
+        }
+        None => false,
+    }
+}
